@@ -348,7 +348,7 @@ Theorem sync_discipline :
       rc = 0%Z -> recs <> [] ->
       exists s pre, ms = pre ++ map (wr s) recs ++ [MSync s] /\ (pre = [] \/ pre = [MCreate s; MDirSync])
     | OTrim _ => dir_ops_synced ms
-    | OTruncate _ => exists U T, ms = U ++ T /\ dir_ops_synced U /\ (T = [] \/ exists s o, T = [MTruncate s o])
+    | OTruncate _ => exists U T, ms = U ++ T /\ dir_ops_synced U /\ (T = [] \/ exists s o, T = [MTruncate s o; MSync s])
     | OReopen => ms = []
     end.
 Proof.
@@ -372,7 +372,7 @@ Proof.
       intros E. rewrite E in Hrc. discriminate Hrc.
   - destruct (truncate_step maxsz l d ack s0 gs k Hinv) as (l' & T & Estep & _ & HT & _).
     rewrite Estep. eexists. exists T. split; [reflexivity|]. split; [eexists; reflexivity|].
-    destruct HT as [-> | ->]; [left; reflexivity|right; eauto].
+    destruct HT as [-> | ->]; [left; reflexivity|right; unfold tmuts; eauto].
   - rewrite (trim_step maxsz l d ack s0 gs k Hinv). eexists. reflexivity.
   - rewrite (li_fs _ _ _ _ _ _ Hinv).
     rewrite open_log_clean by (apply (li_clean _ _ _ _ _ _ Hinv) || apply (li_valid _ _ _ _ _ _ Hinv)). reflexivity.
